@@ -157,6 +157,7 @@ def topologies():
     # one journey used by two usage patterns that carry the same display name (names are labels)
     s = _copy.deepcopy(T["journey_shared_by_two_ups"])
     for n in s["ups"]: s["ups"][n]["display_name"] = "Web users"
+    s["networks"]["net1"] = {"bei": (0.12, "kWh/GB")}; s["ups"]["up1"]["network"] = "net1"      # ... and reach the journey over two different networks
     T["shared_journey_same_named_patterns"] = s
     # two servers whose storages carry the same display name, both used by the jobs of ONE journey
     s = base_spec()
@@ -171,8 +172,8 @@ def topologies():
     s["jobs"]["job1"] = {"server": "srv0", "request_duration": (4, "min"), "data_transferred": (1, "MB")}
     s["steps"]["step1"] = {"jobs": ["job1"], "user_time_spent": (12, "min")}
     s["journeys"]["uj1"] = {"steps": ["step1"]}
-    s["countries"]["c0"] = {"tz": "utc", "aci": (85, "g/kWh")}
-    s["countries"]["c1"] = {"tz": "gmt+3", "aci": (300, "g/kWh")}
+    s["countries"]["c0"] = {"tz": "utc", "aci": (85, "g/kWh"), "short": "XXX"}          # (the two countries carry the same short name: a label)
+    s["countries"]["c1"] = {"tz": "gmt+3", "aci": (300, "g/kWh"), "short": "XXX"}
     s["devices"]["dev1"] = {"power": (2, "W"), "cff": (40, "kg")}
     s["ups"]["up1"] = {"journey": "uj1", "devices": ["dev1"], "network": "net0", "country": "c1", "start": "2025-01-04", "values": [2, 1, 3, 1, 1, 2]}
     s["system"]["ups"] = ["up0", "up1"]
@@ -222,6 +223,7 @@ def topologies():
 def Q(pair):
     v, unit = pair[0], pair[1]
     q = v * u(unit) if unit != "dimensionless" else v * u.dimensionless
+    if len(pair) > 2 and pair[2] is None: return SourceValue(q, source=None)      # an input given without any source
     if len(pair) > 2:
         from efootprint.abstract_modeling_classes.explainable_object_base_class import Source
         return SourceValue(q, Source(pair[2][0], pair[2][1]))
@@ -275,7 +277,7 @@ def build(spec, compute=True):
     for n, d in spec["networks"].items():
         o[n] = Network(dn(n, d), bandwidth_energy_intensity=Q(d.get("bei", (0.05, "kWh/GB"))))
     for n, d in spec["countries"].items():
-        o[n] = Country(dn(n, d), n[:3].upper(), Q(d["aci"]), SourceObject(pytz.timezone(TZ[d["tz"]])))
+        o[n] = Country(dn(n, d), d.get("short", n[:3].upper()), Q(d["aci"]), SourceObject(pytz.timezone(TZ[d["tz"]])))
     for n, d in spec["ups"].items():
         hv = SourceHourlyValues(create_hourly_usage_df_from_list([float(x) for x in d["values"]], _dt(d["start"])))
         o[n] = UsagePattern(dn(n, d), o[d["journey"]], [o[x] for x in d["devices"]], o[d["network"]], o[d["country"]], hv)
@@ -558,7 +560,8 @@ def run_parallel(fn, items, procs=16):
 
 def build_services_system(video_resolution="720p (1280 x 720)", technology="php-symfony", provider="openai", model_name="gpt-3.5-turbo-1106",
                           instance_type=None, cloud_provider=None, with_plain_job=True, gpu_count=64, values=(1000, 2000, 4000, 5000, 8000, 12000, 2000, 2000, 3000),
-                          second_video=False, video_on_second=False, cloud_on_premise_fixed=None, video_base_ram=None):
+                          second_video=False, video_on_second=False, cloud_on_premise_fixed=None, video_base_ram=None,
+                          second_gpu=False, genai_on_second=False, twin_video_job=False):
     """one system containing every builder class (cloud server, GPU server, three services with their jobs)"""
     from efootprint.builders.hardware.boavizta_cloud_server import BoaviztaCloudServer
     from efootprint.core.hardware.gpu_server import GPUServer
@@ -580,7 +583,10 @@ def build_services_system(video_resolution="720p (1280 x 720)", technology="php-
     o["gpu"] = GPUServer.from_defaults("gpu server", storage=o["gpu_st"], compute=SourceValue(gpu_count * u.gpu))
     o["video"] = VideoStreaming.from_defaults("video service", server=o["cloud"], **({"base_ram_consumption": SourceValue(video_base_ram * u.GB)} if video_base_ram is not None else {}))
     o["webapp"] = WebApplication("webapp service", o["cloud"], technology=SourceObject(technology))
-    o["genai"] = GenAIModel.from_defaults("genai service", provider=SourceObject(provider), model_name=SourceObject(model_name), server=o["gpu"])
+    if second_gpu or genai_on_second:
+        o["gpu2_st"] = Storage.ssd("second gpu storage")
+        o["gpu2"] = GPUServer.from_defaults("second gpu server", storage=o["gpu2_st"], compute=SourceValue(gpu_count * u.gpu), ram_per_gpu=SourceValue(40 * u.GB / u.gpu))
+    o["genai"] = GenAIModel.from_defaults("genai service", provider=SourceObject(provider), model_name=SourceObject(model_name), server=o["gpu2"] if genai_on_second else o["gpu"])
     if second_video or video_on_second:
         # a second video service on a second (plain) server, without any job of its own
         o["cloud2_st"] = Storage.ssd("second storage")
@@ -590,6 +596,10 @@ def build_services_system(video_resolution="720p (1280 x 720)", technology="php-
     o["webapp_job"] = WebApplicationJob.from_defaults("webapp job", service=o["webapp"])
     o["genai_job"] = GenAIJob("genai job", o["genai"], output_token_count=SourceValue(1000 * u.dimensionless))
     jobs = [o["video_job"], o["webapp_job"], o["genai_job"]]
+    if twin_video_job:
+        # a second streaming job that carries the SAME name (what the builder's default naming gives to two jobs of one resolution): names are labels
+        o["video_job_b"] = VideoStreamingJob.from_defaults("video job", service=o["video"], resolution=SourceObject(video_resolution), video_duration=SourceValue(50 * u.min))
+        jobs.append(o["video_job_b"])
     if with_plain_job:
         o["plain_job"] = Job.from_defaults("plain job", server=o["cloud"]); jobs.append(o["plain_job"])
     o["step"] = UsageJourneyStep("step", user_time_spent=SourceValue(20 * u.min), jobs=jobs)
